@@ -39,7 +39,7 @@ func (*c16) Assumptions() []string {
 }
 
 type c16Upd struct {
-	text func(ps []string, i int) string        // tengo expression for the new value of parameter i
+	text func(ps []string, i int) string          // tengo expression for the new value of parameter i
 	eval func(vals []int64, n int64, i int) int64 // same in Go
 }
 
